@@ -4,13 +4,17 @@
            at commit ts c, and no lock is left; not `mixed` ⇒ never a data record next to a rollback record);
            the store kernel: committing / rolling back a lock keeps "never both" (NoMix) when the transaction has no
            record yet, a prewrite only takes a lock on a key where it has none, a rollback leaves the marker that
-           rejects a late prewrite; resolving with the reported status writes exactly that status.
+           rejects a late prewrite; resolving with the reported status writes exactly that status;
+           `reachable_never_both`: in every store state reachable by any command sequence respecting the callers'
+           contract (whatever the client did before it crashed, whatever recovery did after), no key holds a data
+           record next to a rollback record of one transaction.
   partial  `crash_ack_consistent` for the committer model (every crash index) is not built: the crash enumeration of
            checks/c02.py explores it on the real client and the judge applies the oracle to every final state.
 -/
 import ClientGoVerif.Proofs.MvccInv
 import ClientGoVerif.Proofs.MvccLocks
 import ClientGoVerif.Proofs.Perc
+import ClientGoVerif.Proofs.MvccReach
 namespace CGV.Props.C02
 open CGV CGV.Mvcc CGV.Perc
 
@@ -34,6 +38,11 @@ theorem rollback_blocks_late_prewrite (s : Store) (r : PrewriteReq) (m : Mutatio
     (hm : ∃ w ∈ (getEntry s.kv m.key).writes, w.vt = .rollback ∧ w.commitTS = r.startTS)
     (hown : ∀ l, (getEntry s.kv m.key).lock = some l → l.startTS = r.startTS → l.op = .pessimisticLock) :
     ∃ e, prewriteMutation s r m act = .error e := prewrite_after_rollback_rejected s r m act hd hm hown
+
+/-- the store half of all-or-nothing, for every reachable state: whatever prefix of the commit protocol ran before
+    the crash and whatever recovery commands ran after it, no key ends with both outcomes for one transaction -/
+theorem reachable_never_both (s : Store) (h : Reachable s) : ∀ p ∈ s.kv, NoMix p.2.writes :=
+  fun p hp => (h.entries p hp).nomix
 
 /-- recovery by resolve removes the lock it resolves (commit or rollback alike) -/
 theorem resolve_kernel_removes_lock (e : Entry) (l : Lock) (k : Bytes) (T C : Nat) :
